@@ -40,9 +40,26 @@ let parse_host_answer a =
       | 0 -> EmptyHost | 1 -> IdnaError | 2 -> InvalidPort | 3 -> InvalidIpv4Address | 4 -> InvalidIpv6Address
       | 5 -> InvalidDomainCharacter | _ -> failwith "bad error code")
   else Ok (parse_host_tok a)
-let o_host_parse l = parse_host_answer (ask_oracle "hp" (show_list l))
-let o_host_parse_opaque l = parse_host_answer (ask_oracle "ho" (show_list l))
-let o_host_display h = parse_list (ask_oracle "hd" (show_host h))
+(* the host functions are the MODEL's (Model/Host.v, property C09); only IDNA ToASCII inside
+   Host::parse is answered by the harness from the real idna crate (oracle "idna": percent-decoded
+   bytes -> ASCII domain or ~).  Set URL_DRIVER_HOST_ORACLE=1 to fall back to the real crate's host
+   functions (hp/ho/hd), e.g. to separate a host-model mismatch from a parser-model mismatch. *)
+let host_via_oracle = (try Sys.getenv "URL_DRIVER_HOST_ORACLE" = "1" with Not_found -> false)
+let idna_cache : (string, n list option) Hashtbl.t = Hashtbl.create 64
+let o_idna bytes =
+  let key = show_list bytes in
+  match Hashtbl.find_opt idna_cache key with
+  | Some r -> r
+  | None ->
+    let r = parse_opt parse_list (ask_oracle "idna" key) in
+    if Hashtbl.length idna_cache > 100000 then Hashtbl.reset idna_cache;
+    Hashtbl.replace idna_cache key r; r
+let o_host_parse l =
+  if host_via_oracle then parse_host_answer (ask_oracle "hp" (show_list l)) else host_parse o_idna l
+let o_host_parse_opaque l =
+  if host_via_oracle then parse_host_answer (ask_oracle "ho" (show_list l)) else host_parse_opaque l
+let o_host_display h =
+  if host_via_oracle then parse_list (ask_oracle "hd" (show_host h)) else host_display h
 
 let ovr_of = function
   | "0" -> None
